@@ -149,6 +149,13 @@ pub const ODD_FENS: &[&str] = &[
     "r3k2r/8/8/8/8/8/8/R3K2R w KQkq e6 0 1",
     "r3k2r/8/8/8/8/8/8/R3K2R b KQkq a3 0 1",
     "4k3/8/8/8/8/8/8/4K3 w KQkq - 0 1",
+    // castling flags left over although the king is not on its home square (edge files included)
+    "5b1k/8/8/8/8/8/8/K7 b k - 0 1",
+    "7k/8/8/8/8/8/8/K4B2 w Q - 0 1",
+    "7k/8/8/8/8/8/8/K7 w KQkq - 0 1",
+    "k7/8/8/8/8/8/8/7K b KQkq - 0 1",
+    "1k6/8/8/8/8/8/8/1K6 w KQkq - 0 1",
+    "4k3/8/8/8/8/8/8/R3K2R w kq - 0 1",
     // more pseudo-legal moves than any legal position has (221 and 224), still within the 256-entry move buffer
     "R6R/3Q4/1Q4Q1/4Q3/2Q4Q/Q4Q2/3Q4/kBNN1KB1 w - - 0 1",
     "R4Q1R/3Q4/1Q4Q1/4Q3/2Q4Q/Q4Q2/pp1Q4/kBNN1KB1 w - - 0 1",
